@@ -128,7 +128,7 @@ func Monitors(o Outcome) []Finding {
 				rb, okb := bretPos[b]
 				ca, oka := bcallPos[a]
 				if okb && oka && rb < ca {
-					add("call-order", "subscriber %d received %d before %d although Broadcast(%d) returned before Broadcast(%d) was called", h, a, b, b, a)
+					add("overtaken-by-later-broadcast", "subscriber %d received %d before %d although Broadcast(%d) returned before Broadcast(%d) was called", h, a, b, b, a)
 				}
 			}
 		}
